@@ -156,6 +156,11 @@ func unescapeMap(fields Config) Config {
 		if key[0] == '_' {
 			key = key[1:]
 		}
+		// "_" alone: an empty selector selects the event's root, renaming it would nest the root
+		// into itself
+		if key == "" {
+			return
+		}
 		newConfig.Append(key, value)
 	})
 	return newConfig
